@@ -57,6 +57,11 @@ def cases(seed, tier, broken=()):
                     "mseed": int(rng.integers(0, 2**31)), "rs": int(rng.integers(0, 2**31)), "k": int(rng.integers(1, 4))})
     for i, cls in enumerate(SEED_CLASSES * {"quick": 1, "thorough": 6, "search": 2}[tier]):
         out.append({"kind": "seedcls", "cls": cls, "mseed": int(rng.integers(0, 2**31)), "rs": int(rng.integers(0, 2**31))})
+    # boundary seeds: 0 is a valid seed, not "no seed"
+    for cls in ("EOF", "ExtendedEOF", "MCA", "SparsePCA+rand", "POP"):
+        out.append({"kind": "seedcls", "cls": cls, "mseed": int(rng.integers(0, 2**31)), "rs": 0})
+    for be in ("numpy", "complex", "dask"):
+        out.append({"kind": "seed", "backend": be, "n": 40, "p": 12, "mseed": int(rng.integers(0, 2**31)), "rs": 0, "k": 2})
     # --- sign rule
     for i in range({"quick": 16, "thorough": 200, "search": 100}[tier]):
         out.append({"kind": "sign", "variant": ["random", "const_neg", "tie", "single"][i % 4], "n": int(rng.integers(5, 30)), "p": int(rng.integers(1, 8)) if i % 4 != 3 else 1,
@@ -271,7 +276,7 @@ def run_seedcls(case):
     a, b = fit(), fit()
     if not all(np.array_equal(x, y, equal_nan=True) for x, y in zip(a, b)):
         d = max(float(np.nanmax(np.abs(np.asarray(x) - np.asarray(y)))) for x, y in zip(a, b))
-        F.append(Finding("oracle", "seed_determinism", cls, f"two fits of {cls} with random_state={rs} differ (max abs {d:.2e})"))
+        F.append(Finding("oracle", "seed_determinism", cls + ("|seed0" if rs == 0 else ""), f"two fits of {cls} with random_state={rs} differ (max abs {d:.2e})"))
     return {"findings": F, "info": {"oracle_checks": {"seedcls": 1}, "dist": {"kind": "seedcls", "cls": cls}}}
 
 
